@@ -347,3 +347,67 @@ package document
 //@ ensures err == nil ==> cellParasOwn(t)
 //@ ensures err == nil ==> paraRunsOwn(t)
 //@ ensures err == nil && old(rowPropsOwn(t)) ==> rowPropsOwn(t)
+
+// ---------------------------------------------------------------- readers: no side effect on any pre-existing object, no panic for any index
+
+//@ func (*Table).GetCellTextDirection
+//@ props C09
+//@ requires t != nil
+//@ modifies nothing
+//@ ensures err == nil <==> (0 <= row && row < len(t.Rows) && 0 <= col && col < len(t.Rows[row].Cells))
+//@ ensures err == nil && t.Rows[row].Cells[col].Properties != nil && t.Rows[row].Cells[col].Properties.TextDirection != nil ==> string(result0) == t.Rows[row].Cells[col].Properties.TextDirection.Val
+//@ ensures !(err == nil && t.Rows[row].Cells[col].Properties != nil && t.Rows[row].Cells[col].Properties.TextDirection != nil) ==> string(result0) == "lrTb"
+
+// GetCellFormat is NOT under contract: it hands &format.TextFormat.FontSize (an interior pointer) to fmt.Sscanf, which
+// the engine reports as outside-subset.
+
+//@ func (*Table).GetMergedCellInfo
+//@ props C09
+//@ requires t != nil
+//@ modifies nothing
+//@ ensures err == nil <==> (0 <= row && row < len(t.Rows) && 0 <= col && col < len(t.Rows[row].Cells))
+
+//@ func (*Table).GetNestedTables
+//@ props C09
+//@ requires t != nil
+//@ modifies nothing
+//@ ensures err == nil <==> (0 <= row && row < len(t.Rows) && 0 <= col && col < len(t.Rows[row].Cells))
+//@ ensures err != nil ==> len(result0) == 0 && arr(result0) == 0
+//@ ensures err == nil ==> result0 == t.Rows[row].Cells[col].Tables
+
+//@ func (*Table).GetRowHeight
+//@ props C09
+//@ requires t != nil
+//@ modifies nothing
+//@ ensures err == nil <==> (0 <= rowIndex && rowIndex < len(t.Rows))
+//@ ensures err != nil ==> result0 == nil
+//@ ensures err == nil ==> fresh(result0)
+//@ ensures err == nil && (t.Rows[rowIndex].Properties == nil || t.Rows[rowIndex].Properties.TableRowH == nil) ==> result0.Height == 0 && string(result0.Rule) == "auto"
+//@ ensures err == nil && t.Rows[rowIndex].Properties != nil && t.Rows[rowIndex].Properties.TableRowH != nil ==> string(result0.Rule) == ite(t.Rows[rowIndex].Properties.TableRowH.HRule != "", t.Rows[rowIndex].Properties.TableRowH.HRule, "auto")
+
+//@ func (*Table).IsRowKeepTogether
+//@ props C09
+//@ requires t != nil
+//@ modifies nothing
+//@ ensures err == nil <==> (0 <= rowIndex && rowIndex < len(t.Rows))
+//@ ensures err != nil ==> result0 == false
+//@ ensures err == nil ==> (result0 <==> (t.Rows[rowIndex].Properties != nil && t.Rows[rowIndex].Properties.CantSplit != nil && t.Rows[rowIndex].Properties.CantSplit.Val == "1"))
+
+//@ func (*Table).GetTableLayout
+//@ props C09
+//@ requires t != nil
+//@ modifies nothing
+//@ ensures fresh(result) && string(result.Alignment) == ite(t.Properties != nil && t.Properties.TableJc != nil, t.Properties.TableJc.Val, "left") && string(result.TextWrap) == "none" && string(result.Position) == "inline" && result.Positioning == nil
+
+//@ func (*Table).GetTableBreakInfo
+//@ props C09
+//@ requires t != nil
+//@ modifies nothing
+//@ loop 1
+//@   invariant 0 <= #i && #i <= len(t.Rows) && unchangedHeap()
+//@   decreases len(t.Rows) - #i
+
+//@ func (*CellIterator).Progress
+//@ props C09
+//@ requires iter != nil
+//@ modifies nothing
